@@ -84,7 +84,12 @@ func (h *connIDManager) add(f *wire.NewConnectionIDFrame) error {
 	}
 	// If the NEW_CONNECTION_ID frame is reordered, such that its sequence number is smaller than the currently active
 	// connection ID or if it was already retired, send the RETIRE_CONNECTION_ID frame immediately.
-	if f.SequenceNumber < max(h.activeSequenceNumber, h.highestProbingID) || f.SequenceNumber < h.highestRetired {
+	// A connection ID that was handed out for path probing has left the queue. A duplicate
+	// of its NEW_CONNECTION_ID frame must neither be queued a second time (while the ID is
+	// still probing) nor bring the ID back after it was retired.
+	probing := h.isProbing(f.SequenceNumber)
+	retiredProbe := h.pathProbing != nil && f.SequenceNumber == h.highestProbingID && f.SequenceNumber != h.activeSequenceNumber
+	if !probing && (f.SequenceNumber < max(h.activeSequenceNumber, h.highestProbingID) || f.SequenceNumber < h.highestRetired || retiredProbe) {
 		h.queueControlFrame(&wire.RetireConnectionIDFrame{
 			SequenceNumber: f.SequenceNumber,
 		})
@@ -117,7 +122,7 @@ func (h *connIDManager) add(f *wire.NewConnectionIDFrame) error {
 		h.highestRetired = f.RetirePriorTo
 	}
 
-	if f.SequenceNumber == h.activeSequenceNumber {
+	if f.SequenceNumber == h.activeSequenceNumber || probing {
 		return nil
 	}
 
@@ -131,6 +136,15 @@ func (h *connIDManager) add(f *wire.NewConnectionIDFrame) error {
 		h.updateConnectionID()
 	}
 	return nil
+}
+
+func (h *connIDManager) isProbing(seq uint64) bool {
+	for _, entry := range h.pathProbing {
+		if entry.SequenceNumber == seq {
+			return true
+		}
+	}
+	return false
 }
 
 func (h *connIDManager) addConnectionID(seq uint64, connID protocol.ConnectionID, resetToken protocol.StatelessResetToken) error {
